@@ -16,13 +16,45 @@ var (
 
 func verifFail(what string) bool { return vf.Choose("fail-"+what, 2) == 1 }
 
+// a small file-system model: content per name, one open handle with a write position
+var (
+	verifFS      map[string][]byte
+	verifOpen    string
+	verifOpenPos int
+)
+
 func verifStubCreate(name string) (*os.File, error) {
+	return verifStubOpenFile(name, os.O_RDWR|os.O_CREATE|os.O_TRUNC, 0o666)
+}
+
+func verifStubOpenFile(name string, flag int, perm os.FileMode) (*os.File, error) {
 	if verifFail("create") {
 		verifTrace = append(verifTrace, "create-failed")
 		return nil, errVerifIO
 	}
 	verifTrace = append(verifTrace, "create:"+name)
+	if verifFS == nil {
+		verifFS = map[string][]byte{}
+	}
+	if flag&os.O_TRUNC != 0 {
+		verifFS[name] = nil
+	}
+	verifOpen, verifOpenPos = name, 0
+	if flag&os.O_APPEND != 0 {
+		verifOpenPos = len(verifFS[name])
+	}
 	return verifFile, nil
+}
+
+func verifStubWrite(f *os.File, b []byte) (int, error) {
+	c := verifFS[verifOpen]
+	for len(c) < verifOpenPos+len(b) {
+		c = append(c, 0)
+	}
+	copy(c[verifOpenPos:], b)
+	verifOpenPos += len(b)
+	verifFS[verifOpen] = c
+	return len(b), nil
 }
 
 func verifStubSync(f *os.File) error {
@@ -44,6 +76,10 @@ func verifStubClose(f *os.File) error {
 
 func verifStubRename(from, to string) error {
 	verifTrace = append(verifTrace, "rename:"+from+">"+to)
+	if verifFS != nil {
+		verifFS[to] = verifFS[from]
+		delete(verifFS, from)
+	}
 	return nil
 }
 
@@ -57,12 +93,18 @@ func (verifState) Save(w io.Writer) error {
 		return errVerifIO
 	}
 	verifTrace = append(verifTrace, "saved")
-	return nil
+	_, err := w.Write([]byte("NEW"))
+	return err
 }
 
 // C07.H4: generic offset.Save: temp file, write, fsync, rename; a failed step never replaces the good file.
 func VerifH_C07_genericSave() {
 	verifTrace = nil
+	// a longer temp file may be left over from a save that failed or crashed before its rename
+	verifFS = map[string][]byte{"state.yaml": []byte("GOOD")}
+	if vf.Choose("leftover-temp-file", 2) == 1 {
+		verifFS["state.yaml.tmp"] = []byte("OLDOLDOLD")
+	}
 	o := NewOffset("state.yaml")
 	o.Callback = verifState{}
 	err := o.Save()
@@ -82,10 +124,12 @@ func VerifH_C07_genericSave() {
 			vf.Assert(t == "rename:state.yaml.tmp>state.yaml", "rename-temp-over-current")
 			vf.Assert(saved, "rename-only-after-successful-save")
 			vf.Assert(synced, "rename-only-after-fsync")
+			vf.Assert(string(verifFS["state.yaml"]) == "NEW", "renamed-file-is-exactly-the-new-snapshot")
 			vf.Reach("renamed")
 		}
 	}
 	if !renamed {
 		vf.Assert(err != nil, "failure-is-reported")
+		vf.Assert(string(verifFS["state.yaml"]) == "GOOD", "failed-save-leaves-the-good-file")
 	}
 }
